@@ -12,9 +12,10 @@ DetailedPlacement DetailedPlacement::fromIspdCircuit(const Circuit &circuit) {
   std::vector<Rectangle> obstacles;
   for (int c = 0; c < circuit.nbCells(); ++c) {
     if (circuit.cellIsFixed_[c]) {
+      // Fixed cells only matter as obstructions, which computeRows handles
       widths[c] = -1;
-    }
-    if (circuit.cellHeight_[c] != rowHeight) {
+    } else if (circuit.cellHeight_[c] != rowHeight) {
+      // Movable cells that are not handled here become obstacles
       widths[c] = -1;
       Rectangle pl = circuit.placement(c);
       obstacles.push_back(pl);
